@@ -99,7 +99,7 @@ def programs(tier):
     # the two speed pokes with a value operand that needs a runtime call: the call must still be made
     for a in ["65496", "65497", "&HFFD8", "&HFFD9", "65497.0"]:
         for v in ["BUTTON(0)", "VAL(INKEY$)", "INT(B/2)", "JOYSTK(1)+1", "POINT(1,2)"]:
-            progs.append(("poke-probe", f"10 POKE {a},{v}\n20 A=BUTTON(1)"))
+            progs.append(("poke-call-probe", f"10 POKE {a},{v}\n20 A=BUTTON(1)"))
     # every numeric operand position of every statement kind once with an operand that needs a runtime call
     for t in OPERAND_TEMPLATES:
         if '"U#"' in t or t.startswith(("DATA", "CLEAR", "PCLEAR", "RGB")):
@@ -243,6 +243,7 @@ def dim_probes(r, n):
 
 def cases(tier):
     r = rng("b09-suite-opts")
+    r_new = rng("b09-suite-opts-newer-probes")
     out = []
 
     def add(kind, text, o):
@@ -257,12 +258,15 @@ def cases(tier):
                 add(kind, text, {"flags": flags, "storage": 32, "procname": "prog", "sizes": []})
             continue
         if kind == "refusal-probe":
+            G.option_sets(r, 1)       # (the draw this probe used to take: the stream of the kinds that follow stays what it was)
             # a refusal must not depend on an option: with and without the dispatcher suffix, the prologue, label filtering
             for flags in ("1100000", "1001000", "0000100", "0101000", "1011010", "1111011"):
                 add(kind, text, {"flags": flags, "storage": 32, "procname": "prog", "sizes": []})
             continue
         nopt = 3 if kind in ("example",) else 1
-        for o in G.option_sets(r, nopt):
+        # probe kinds added later draw their options from a stream of their own: the draws of the older kinds stay what they were
+        newer = kind in ("poke-call-probe", "function-operand-probe", "expression-operand-probe", "helper-nest-probe", "next-probe")
+        for o in G.option_sets(r_new if newer else r, nopt):
             add(kind, text, o)
     for text, o in dim_probes(rng("b09-dim-probes"), 24 if tier != "thorough" else 240):
         add("dim-probe", text, o)
